@@ -191,11 +191,13 @@ def subprocess_plan(seed, count):
     combos = [('cli', lay, True) for lay in H.CLI_LAYOUTS] + [('driver', lay, True) for lay in H.DRIVER_LAYOUTS] + \
              [('cli', 'plain', False), ('cli', 'null-base', False), ('cli', 'samestat', False)]
     out = []
+    kills = 0
     for k in range(count):
         app, layout, with_out = combos[k % len(combos)]
         fault = None
-        if k % 4 == 3 and layout != 'del-both' and with_out:
-            fault = H.KILL_STEPS[(k // 4) % 2]
+        if k % 3 == 2 and layout != 'del-both' and with_out:
+            fault = H.KILL_STEPS[kills % 2]
+            kills += 1
         out.append({'seed': seed * 13 + 1, 'n': n, 'index': rnd.randrange(n), 'app': app, 'layout': layout, 'mode': 'subproc',
                     'with_out': with_out, 'pre_out': bool(k % 2), 'pathname': bool(k % 3), 'explicit': True,
                     'strategy': list(CORE[k % len(CORE)]), 'fault': fault})
@@ -234,7 +236,7 @@ def replay_case(where):
 def run_bounded(res):
     from bounded import c08_harness as H
     q = res.tier == 'quick'
-    njobs, ntriples, steps_mod, nsub = (32, 12, 1, 32) if q else (96, 40, 1, 128)
+    njobs, ntriples, steps_mod, nsub = (32, 10, 1, 32) if q else (96, 40, 1, 128)
     jobs = [('one', w) for w in subprocess_plan(res.seed, nsub)]
     jobs += [('batch', res.seed * 6007 + s, ntriples, steps_mod) for s in range(njobs)]
     seen = set()
